@@ -446,3 +446,20 @@ Theorem C03_source_stretch_other : forall sc0 bc0 scl bcl bs be ws,
   String.eqb sc0 bc0 = false -> String.eqb scl bcl = false ->
   code_stretch sc0 bc0 scl bcl bs be ws = ws.
 Proof. exact source_stretch_other. Qed.
+
+(* ---- source tie: drop_outliers, the WHOLE function read per row as "the bin is kept" (an empty table is returned as it is,
+   otherwise "return cnarr[~outlier_mask]"), translated from the Python source on every run (Gen/FnSegOutliers.v
+   fn_drop_outliers_keep): on a table with a row it is negb outlier, and the model's survives is the conjunction of the
+   generated bits of drop_outliers and of the weight rule *)
+From CNV Require Import Gen.FnSegOutliers Proofs.FnSegOutliers.
+
+Theorem C03_source_drop_outliers : forall (nrows : Z) (outlier : bool) (n_outliers : Z),
+  nrows <> 0 -> fn_drop_outliers_keep nrows outlier n_outliers = negb outlier.
+Proof. exact source_drop_outliers. Qed.
+
+Theorem C03_source_survives_bits : forall skip_low (min_weight : Q) (outlier : bool) (b : bin) (nrows n_outliers : Z),
+  nrows <> 0 ->
+  survives skip_low min_weight outlier b
+  = negb (skip_low && low_coverage b) && fn_drop_outliers_keep nrows outlier n_outliers
+    && negb (fn_weight_too_low min_weight (b_weight b)).
+Proof. exact source_survives_bits. Qed.
